@@ -204,6 +204,30 @@ def rule_teardown(P):
     return r
 
 
+def rule_timer(P):
+    r = Rule("C34-timer", "K3", "a request's timeout is deleted only when the request is finished, suspended, or re-transmitted (which re-arms it) on every path", floor=3)
+    REARM = ("evdns_request_transmit", "request_submit")
+    OK_FNS = {"request_finished": "the request leaves the in-flight table", "evdns_base_clear_nameservers_and_suspend": "the request is moved back to the waiting queue"}
+    for f in P.fns_in("evdns.c"):
+        for el in f.calls():
+            n = callee_name(el.e)
+            if n not in ("event_del", "evtimer_del", "event_del_nolock_", "event_del_noblock"):
+                continue
+            a = strip(el.e[2][0])
+            if not (is_e(a, "addr") and fields_of(a[1])[-1:] == ["request.timeout_event"]):
+                continue
+            if f.name in OK_FNS:
+                r.inst((f.name, el.n), {"fn": f.name, "site": el.where(), "justified": OK_FNS[f.name]}, nontrivial=False)
+                continue
+            w = f.exit_reachable_avoiding(el.pos(), lambda x: x.e[0] == "call" and callee_name(x.e) in REARM)
+            # a loop back to another request is also an exit of this request's handling
+            r.inst((f.name, el.n), {"fn": f.name, "site": el.where(), "returns_without_retransmit": bool(w)})
+            if w is not None:
+                r.bad("K3:%s:timer-deleted-request-kept" % f.name, el.where(), f.name,
+                      "the request's timeout is deleted but the function can return without re-transmitting it: the request stays in flight with no timer — nothing will ever retry or fail it, its callback never runs")
+    return r
+
+
 def run(ctx, config):
     P = ctx.prog(UNITS, config)
-    return [rule_ids(P), rule_pairing(P), rule_pending(P), rule_teardown(P)]
+    return [rule_ids(P), rule_pairing(P), rule_pending(P), rule_teardown(P), rule_timer(P)]
